@@ -2,7 +2,7 @@
 
 PROP = {
     "level_text_more": "The part 'home' runs the modules wired the way home wires them (the real assembly of C11) under the race detector: admin calls changing filtering settings || configuration saves from background goroutines (onConfigModified, as the protection re-enable worker and the filter refresh do) || read-only endpoints || host checks.",
-    "thorough_scale": 4,
+    "thorough_scale": 2,
     "race": True,
     "parts": [
         {"name": "server", "pkg": "internal/dnsforward",
